@@ -7,6 +7,7 @@ open AnnVerif AnnVerif.Drv
 
 structure D where
   t : Trie.Node := .empty
+  reopened : Bool := false   -- the trie was reopened from the node database: reads go through it
   db : StateJournal.DB := {}
   persisted : StateJournal.Accounts := fun _ => none
   dead : Bool := false
@@ -23,19 +24,30 @@ def dump (db : StateJournal.DB) : String :=
 def step (d : D) (line : String) : D × String :=
   match words line with
   | ["cfg"] => (d, "ok")
-  | ["new"] => ({ d with t := .empty }, Hex.encode (Trie.rootHash Keccak.keccak256 .empty))
+  | ["new"] => ({ d with t := .empty, reopened := false }, Hex.encode (Trie.rootHash Keccak.keccak256 .empty))
   | ["put", k, v] =>
     match Hex.decode k, Hex.decode (if v == "-" then "" else v) with
     | some k, some v =>
       let t' := Trie.update d.t k v
-      ({ d with t := t' }, Hex.encode (Trie.rootHash Keccak.keccak256 t'))
+      ({ d with t := t', reopened := false }, Hex.encode (Trie.rootHash Keccak.keccak256 t'))
     | _, _ => (d, "bad-op")
   | ["get", k] =>
     match Hex.decode k with
-    | some k => (d, hexOpt (Trie.lookup d.t k))
+    | some k =>
+      if d.reopened then
+        -- read from what the commit wrote (Lemmas/TrieReopen.lean): fetch by hash, decode, walk
+        let hk := Trie.keybytesToHex k
+        match d.t with
+        | .empty => (d, "-")
+        | _ =>
+          (d, match Trie.verify Keccak.keccak256 (Trie.commitNodes Keccak.keccak256 d.t) (hk.length + 1)
+                (Trie.rootHash Keccak.keccak256 d.t) hk with
+            | some o => hexOpt o
+            | none => "missing-node")
+      else (d, hexOpt (Trie.lookup d.t k))
     | none => (d, "bad-op")
   | ["commit"] => (d, Hex.encode (Trie.rootHash Keccak.keccak256 d.t))
-  | ["reopen"] => (d, Hex.encode (Trie.rootHash Keccak.keccak256 d.t))
+  | ["reopen"] => ({ d with reopened := true }, Hex.encode (Trie.rootHash Keccak.keccak256 d.t))
   | ["prove", k] =>
     match Hex.decode k with
     | some k =>
